@@ -89,14 +89,26 @@ Theorem adapter_limit ops a :
   st_coll (reach ops) = CAd a ->
   q_running (ad_q a) <= q_len (ad_q a) /\ q_len (ad_q a) <= q_cap (ad_q a).
 Proof.
-  intros Hc. destruct (reachable_Inv ops) as [_ Hok]. rewrite Hc in Hok. destruct Hok as [_ Hle].
+  intros Hc. destruct (reachable_Inv ops) as [_ Hok]. rewrite Hc in Hok. destruct Hok as (_ & Hle & _).
   split; auto. apply q_running_le_len.
 Qed.
 
 Theorem fec_limit ops a :
   st_coll (reach ops) = CFec a -> fub_len (fe_q a) <= fub_cap (fe_q a).
 Proof.
-  intros Hc. destruct (reachable_Inv ops) as [_ Hok]. rewrite Hc in Hok. apply sm_filled_le; auto.
+  intros Hc. destruct (reachable_Inv ops) as [_ Hok]. rewrite Hc in Hok. destruct Hok as [Hwf _]. apply sm_filled_le; auto.
+Qed.
+
+(** C10: the adapters are fused: while an upstream is still held it has not ended (it is
+    dropped in the call in which it answers None), so it is never polled after its end *)
+Theorem upstream_fused ops :
+  match st_coll (reach ops) with
+  | CAd a => up_live (ad_up a)
+  | CFec a => up_live (fe_up a)
+  | _ => True
+  end.
+Proof.
+  destruct (reachable_Inv ops) as [_ Hok]. destruct (st_coll (reach ops)); auto; simpl in Hok; tauto.
 Qed.
 
 (** C15: a bounded collection never holds more than its capacity; [len] is the number of held futures *)
